@@ -93,7 +93,12 @@ class Controller:
                             completed.append(expected[0])   # give up on it
                             continue
                     else:
-                        cands = expected
+                        cands = list(expected)
+                        early = sorted(x for x in self.parked if x not in expected)
+                        if early:
+                            # calls the documented semantics would not have started yet are in flight: they may complete first too
+                            self.deviations.append({'early_start': early})
+                            cands += early
                     e = self.choose(cands)
                     ev = self.parked.pop(e)
                     self.released.append(e)
